@@ -334,6 +334,53 @@ func runC03(p *P, r *R) {
 		}
 	}
 
+	// R03.7 the list count announced in the header equals the number of lists laid out / mapped:
+	// every iteration of the per-class loop creates (maps) a list or fails the whole layout.
+	for _, lc := range []struct {
+		f    *ssa.Function
+		call string
+	}{{cm, "createFreeBufferList"}, {mm, "mappingFreeBufferList"}} {
+		if lc.f == nil {
+			continue
+		}
+		var bodies []Point
+		var heads []ssa.Instruction
+		for _, b := range lc.f.Blocks {
+			switch b.Comment {
+			case "rangeindex.body", "for.body":
+				bodies = append(bodies, Point{b, -1})
+			case "rangeindex.loop", "for.loop", "for.post":
+				if len(b.Instrs) > 0 {
+					heads = append(heads, b.Instrs[0])
+				}
+			}
+		}
+		mk := p.mCall(lc.call)
+		okLoop := len(bodies) > 0 && len(heads) > 0
+		for _, st := range bodies {
+			for _, h := range heads {
+				if p.reachesWithout(st, h, mk.F, nil) {
+					okLoop = false
+				}
+			}
+		}
+		// and the created list is kept: append of the call's result
+		kept := false
+		for _, ci := range findInstrs(lc.f, mk) {
+			for _, ref := range *ci.(*ssa.Call).Referrers() {
+				if e, ok := ref.(*ssa.Extract); ok && e.Index == 0 {
+					for _, r2 := range *e.Referrers() {
+						if st, ok := r2.(*ssa.Store); ok && st.Val == ssa.Value(e) {
+							kept = true
+						}
+					}
+				}
+			}
+		}
+		r.ob("R03.7", p.fname(lc.f)+": every size class of the loop gets a list (or the layout fails): the count word matches the lists laid out", p.pos(lc.f.Pos()), okLoop && kept, true,
+			"skipping a class while the header still counts it makes the peer map a phantom class from whatever bytes follow")
+	}
+
 	// --- queue header
 	qc, qm := p.fn("createQueueFromBytes"), p.fn("mappingQueueFromBytes")
 	if qc == nil || qm == nil {
